@@ -7,7 +7,10 @@ computed from the unmodified object before the loop and B from a clone on which 
 the backward closure of the protected set is a real fixed point (sticky change flag); that an
 in-place change of a test case that stays in a suite is followed by invalidation of its
 chromosome; that the visitors only remove; and that _minimize snapshots before and restores after
-a failed coverage comparison.  Exactness of coverage after minimisation is not decided.
+a failed coverage comparison - locals identified by role: the suite is marked changed between the
+minimisers and the coverages it is judged by, no minimiser runs after them, no coverage query takes the
+whole collection of functions; _directly_asserted_variables is interpreted over representative test
+cases.  Exactness of coverage after minimisation is not decided.
 """
 
 from __future__ import annotations
